@@ -154,6 +154,11 @@ impl Model {
             return 1.0;
         };
 
+        // Huecos sin definición geométrica completa (sin posición): no hay puntos de muestreo
+        if ray_origins.is_empty() {
+            return 1.0;
+        }
+
         // Comprobamos que la normal del opaco y el rayo hacia el sol no son opuestos (backface culling)
         // Si no, el rayo iría al interior del hueco, está en sombra, y devolvemos 0.0
         if window_wall.geometry.normal().dot(ray_dir) < 0.01 {
